@@ -15,7 +15,7 @@ type Occ struct {
 	N string `json:"n"`           // token text as written (with any package qualifier)
 	R string `json:"r"`           // role: op bind ref data kw cond pkg free tmpl
 	B int    `json:"b,omitempty"` // binder id (bind/ref/tmpl)
-	K string `json:"k,omitempty"` // binder kind (defun gset macro param let let* flet labels dotimes macrolet)
+	K string `json:"k,omitempty"` // binder kind (defun gset macro deftype param let let* flet labels dotimes macrolet)
 	C string `json:"c,omitempty"` // occurrence context
 	Q bool   `json:"q,omitempty"` // written inside a [...] bracket list
 	P string `json:"p,omitempty"` // package of a global binder
@@ -131,6 +131,8 @@ type bind struct {
 	tmplAvoid []string // template-introduced binder names
 	isMacro   bool
 	file      int
+	defconst  bool   // written (defconst name value "doc"): a set plus an implicit export
+	nested    string // "let" | "progn": the defining form is wrapped in another TOP-LEVEL form
 }
 
 type scope struct {
@@ -145,4 +147,5 @@ type pkg struct {
 	impFile     map[string]int  // file index of the use-package form that imported the name
 	impConflict map[string]bool // name imported from two different packages (the later use-package wins at run time)
 	exports     []*bind
+	uses        map[string]bool // packages this one has executed (use-package ...) on so far
 }
